@@ -50,7 +50,11 @@ def check_batched(ctx, fi: FuncInfo, cls: str, rule: str = "NI-1") -> int:
     def seq_members(t):
         t = strip_wrappers(t)
         if t.op in ("tuple", "list"):
-            return [y for a in t.args for y in ([a] if strip_wrappers(a).op not in ("star",) else [a])]
+            out = []
+            for a in t.args:
+                sub = seq_members(a) if strip_wrappers(a).op in ("tuple", "list") else None   # (fields, (w_up, w_dn))
+                out.extend(sub if sub is not None else [a])
+            return out
         if t.op == "binop" and t.args[0] == "+":
             l, r = seq_members(t.args[1]), seq_members(t.args[2])
             if l is not None and r is not None:
